@@ -97,6 +97,22 @@ Proof.
   rewrite E. simpl. split; [reflexivity|]. split; [exact I1|exact A1].
 Qed.
 
+Lemma walk_sfune br A fx ps body G D :
+  okt_s br A (SFunE fx ps body) = true -> mem "inputs" G = true -> sub G A ->
+  exists D', walk_s (SFunE fx ps body) (WG G D) = WOk (WG G D') /\ incl D D' /\ incl (ad_s body) D'.
+Proof.
+  intros Hok Hi S. simpl in Hok.
+  apply andb_true_iff in Hok. destruct Hok as [Hok Hfa]. apply andb_true_iff in Hok. destruct Hok as [Hok Hni].
+  apply andb_true_iff in Hok. destruct Hok as [_ Hb]. apply negb_true_iff in Hni.
+  assert (HG : Gok G (ps ++ hoist_vars body)).
+  { split; [exact Hi|]. intros x Hx. destruct (mem x G) eqn:Ex; [|reflexivity].
+    rewrite forallb_forall in Hfa. specialize (Hfa x (proj1 (mem_In _ _) Hx)). rewrite (S x Ex) in Hfa. discriminate. }
+  destruct W_all as [_ [_ Ws]].
+  assert (Ht' : false = true -> G = ["inputs"]) by discriminate.
+  destruct (Ws body false G _ [] D Hb Hni HG Ht' (or_introl eq_refl)) as [D' [E [I1 A1]]].
+  exists D'. split; [exact E|]. split; [exact I1|exact A1].
+Qed.
+
 Definition Qe (e : expr) : Prop := forall br A G D,
   okt_e br A e = true -> mem "inputs" G = true -> sub G A ->
   exists G' D', walk_e e (WG G D) = WOk (WG G' D') /\ skipC br A G D G' D' [].
@@ -171,9 +187,22 @@ Proof.
       exists G1, D1. simpl. rewrite (enter_assign_none _ _ _ En). simpl. split; [exact W1|exact K1].
   - (* ECall *)
     intros f IHf args IHa br A G D Hok Hi S. simpl in Hok. apply andb_true_iff in Hok. destruct Hok as [H1 H2].
-    destruct (get_name f) as [g|] eqn:En; [|discriminate]. apply get_name_some in En; subst f.
-    simpl. apply (IHa br A G D H2 Hi S).
+    destruct f; try discriminate.
+    + simpl. apply (IHa br A G D H2 Hi S).
+    + apply andb_true_iff in H1. destruct H1 as [H1 _].
+      change (walk_e (ECall (EDot f f0) args) (WG G D)) with (wbind (walk_e (EDot f f0) (WG G D)) (walk_l args)).
+      destruct (IHf br A G D H1 Hi S) as [G1 [D1 [W1 K1]]].
+      destruct (IHa br A G1 D1 H2 (proj1 K1) (proj1 (proj2 K1))) as [G2 [D2 [W2 K2]]].
+      exists G2, D2. rewrite W1. simpl. split; [exact W2|eapply skipC_trans; [exact K1|exact K2|apply incl_refl]].
   - intros ps body _ br A G D Hok. simpl in Hok. discriminate.
+  - (* EOp *)
+    intros o ex args IHa br A G D Hok Hi S. simpl in Hok. simpl. apply (IHa br A G D Hok Hi S).
+  - (* ELogic *)
+    intros isand a IHa b IHb br A G D Hok Hi S. simpl in Hok. apply andb_true_iff in Hok. destruct Hok as [H1 H2].
+    destruct (IHa br A G D H1 Hi S) as [G1 [D1 [W1 K1]]].
+    destruct (IHb true A G1 D1 H2 (proj1 K1) (proj1 (proj2 K1))) as [G2 [D2 [W2 K2]]].
+    exists G2, D2. simpl. rewrite W1. simpl. split; [exact W2|].
+    eapply skipC_trans; [exact K1|apply skipC_weaken; exact K2|apply incl_refl].
   - intros br A G D _ Hi S. exists G, D. split; [reflexivity|apply skipC_refl; assumption].
   - (* ECons *)
     intros e IHe r IHr br A G D Hok Hi S. simpl in Hok.
@@ -202,4 +231,11 @@ Proof.
     destruct (walk_sfun br A fn ps body G D Hok Hi S) as [D' [E [I1 A1]]].
     exists G, D'. split; [exact E|].
     split; [exact Hi|]. split; [exact S|]. split; [exact I1|]. split; [auto|exact A1].
+  - (* SFunE *)
+    intros fx ps body _ br A G D Hok Hi S.
+    destruct (walk_sfune br A fx ps body G D Hok Hi S) as [D' [E [I1 A1]]].
+    exists G, D'. split; [exact E|].
+    split; [exact Hi|]. split; [exact S|]. split; [exact I1|]. split; [auto|exact A1].
+  - (* SFor *)
+    intros fi _ fc _ fu _ fb _ br A G D Hok. simpl in Hok. discriminate.
 Qed.
